@@ -44,6 +44,7 @@ type CheckCfg struct {
 	GlobalReset   []string          `json:"global_reset,omitempty"`       // packages that get a generated VerifResetGlobals()
 	ExtraPkgs     []string          `json:"extra_harness_pkgs,omitempty"` // other packages whose harness files (common + this id) are overlaid
 	RacePass      bool              `json:"race_pass,omitempty"`
+	RaceTier      string            `json:"race_tier,omitempty"` // "thorough": the free-running -race pass is part of the thorough tier only
 	Env           map[string]string `json:"env,omitempty"`
 	MemLimitMB    int               `json:"mem_limit_mb,omitempty"`
 	// CrashPolicy: "violation" (default) or "crash-point" (a test process dying from a panic inside restic is just
@@ -506,7 +507,9 @@ func doCheck(cfg *CheckCfg, tier, patch string, seed int64, scratch string, star
 	m := mergeShards(results)
 
 	racePass := "not configured"
-	if cfg.RacePass && !infra {
+	if cfg.RacePass && cfg.RaceTier == "thorough" && tier != "thorough" && os.Getenv("VERIF_RACE_FORCE") == "" {
+		racePass = "thorough tier only"
+	} else if cfg.RacePass && !infra {
 		rbin, err := buildTestBinary(cfg, scratch, patch, true)
 		if err != nil {
 			fmt.Fprintf(os.Stderr, "HARNESS-ERROR property=%s race build failed\n%v\n", id, err)
